@@ -1,7 +1,7 @@
 (* C14/BytesProofs.v — the process state computed from the BYTES of a dump: C02's reader model composed with C14's model. *)
 From Coq Require Import Lia.
 From RM Require Import C02.Model C02.Proofs1 C02.Proofs3 C02.Proofs4.
-From RM Require Import C14.Model C14.Proofs C14.Bytes.
+From RM Require Import C14.Model C14.Proofs C14.Bytes Gen.C14Process.
 Open Scope Z_scope.
 
 Lemma sres_opt_of {A} (o : option A) : sres_opt (sres_of o) = o.
@@ -346,4 +346,17 @@ Proof.
         rewrite (Z.mul_comm 65537 (pack_units u1)), (Z.mul_comm 65537 (pack_units u2)) in Hm.
         rewrite !Z_mod_plus_full in Hm. rewrite !Z.mod_small in Hm by lia. split; lia. }
       f_equal. apply IH; assumption.
+Qed.
+
+(* ---------------------------------------------------------------- required / optional streams = the get_stream calls of the source *)
+Lemma stream_policy_is_source : forallb (policy_in GEN_STREAM_POLICY) stream_policy = true.
+Proof. vm_compute. reflexivity. Qed.
+
+Lemma view_required rc v : dump_of_view rc v <> None <-> (exists s, v_sysinfo v = SOk s) /\ (exists ts, v_threads v = SOk ts).
+Proof.
+  unfold dump_of_view. rewrite streams_required. split.
+  - intros [H1 H2]. split.
+    + destruct (v_sysinfo v) as [| |s]; cbn [sres_opt] in H1; try (exfalso; apply H1; reflexivity). exists s. reflexivity.
+    + destruct (v_threads v) as [| |ts]; cbn [sres_opt] in H2; try (exfalso; apply H2; reflexivity). exists ts. reflexivity.
+  - intros [[s Hs] [ts Ht]]. rewrite Hs, Ht. cbn [sres_opt]. split; discriminate.
 Qed.
